@@ -125,3 +125,140 @@ def engines_agree(a, b, ctx=None):
     if ctx is not None and u < (1 << 40):
         ctx.maxulp = max(ctx.maxulp, u)
     return u <= 16 or abs(a - b) <= 1e-12 * max(abs(a), abs(b)) or abs(a - b) <= 1e-14
+
+
+# ------------------------------------------------------------------ C02: C == Python
+def c_to_py_kwargs(kw):
+    """kwargs of a dtw_cc.* call (C encoding: 0 == off) -> kwargs for the Python engine"""
+    out = {}
+    for k, v in kw.items():
+        if k in ("window", "max_dist", "max_step", "max_length_diff", "penalty"):
+            out[k] = None if (v is None or v == 0) else v
+        elif k == "psi":
+            out[k] = None if v is None else (tuple(v) if isinstance(v, (list, tuple)) else v)
+        elif k == "inner_dist":
+            out[k] = {0: "squared euclidean", 1: "euclidean"}.get(v, v)
+        elif k in ("use_pruning", "only_ub"):
+            out[k] = bool(v)
+        elif k in ("use_c", "use_ndim", "compact", "parallel", "use_mp", "show_progress", "block", "only_triu"):
+            pass
+        else:
+            out[k] = v
+    return out
+
+
+def near_threshold(d, m, rel=1e-6):
+    return m is not None and m != 0 and d != inf and abs(d - m) <= rel * max(abs(d), abs(m))
+
+
+def py_reference(dtw, s1, s2, pykw, ndim):
+    """Python-engine value for the same call; None when the call is outside the comparable domain"""
+    from . import monitors
+    f = monitors.orig(dtw, "distance")
+    kw = dict(pykw)
+    only_ub = kw.pop("only_ub", False)
+    if ndim:
+        kw["use_ndim"] = True
+    kw["use_c"] = False
+    if kw.get("use_pruning") or kw.get("max_dist"):
+        kw0 = dict(kw)
+        kw0.pop("use_pruning", None)
+        kw0.pop("max_dist", None)
+        d0 = f(s1, s2, **kw0)
+        if near_threshold(d0, kw.get("max_dist")):
+            return None
+    return f(s1, s2, only_ub=only_ub, **kw)
+
+
+def c02_post(ctx, dtw, fname, ndim, cstyle, label="C02"):
+    """differential postcondition for a single-pair C entry point"""
+    import numpy as np
+
+    def post(a, kw, result, pre):
+        (s1, s2), kw = split(a, kw)
+        if fname.endswith("assinglearray"):
+            nd = a[2] if len(a) > 2 else kw.pop("ndim")
+            s1 = np.asarray(s1).reshape(-1, nd)
+            s2 = np.asarray(s2).reshape(-1, nd)
+        pykw = c_to_py_kwargs(kw) if cstyle else {k: v for k, v in kw.items() if k not in ("use_c",)}
+        nd = ndim
+        if not cstyle:
+            nd = bool(pykw.pop("use_ndim", False)) or ndim
+        try:
+            want = py_reference(dtw, s1, s2, pykw, nd)
+        except Exception as e:
+            ctx.violation("python-engine-exception", prop=label, fn=fname, s1=tolist(s1), s2=tolist(s2),
+                          settings=dict(settings_key(pykw)), error=repr(e)[:300], c=float(result))
+            return
+        if want is None:
+            ctx.count("c02_skipped_near_threshold")
+            return
+        ctx.count("c02_differential_checks")
+        l1, l2 = tolist(s1), tolist(s2)
+        nontriv = want != 0 and min(len(l1), len(l2)) >= 2
+        ctx.case((fname, flat(l1), flat(l2), settings_key(pykw)), nontriv)
+        if want == inf:
+            ctx.count("c02_both_should_be_inf")
+        if not engines_agree(result, want, ctx):
+            ctx.violation("engine-mismatch", prop=label, fn=fname, s1=l1, s2=l2, settings=dict(settings_key(pykw)),
+                          c=float(result), python=float(want))
+        elif len(ctx.samples) < 3 and nontriv and len(pykw) >= 2:
+            ctx.sample(dict(fn=fname, s1=l1, s2=l2, settings=dict(settings_key(pykw)), c=float(result),
+                            python=float(want)))
+
+    return post
+
+
+# ------------------------------------------------- C03: early abandoning changes nothing
+def valid_ub_domain(kw, r, c):
+    return (not kw.get("max_step")) and (not kw.get("penalty") or r == c)
+
+
+def c03_distance_post(ctx, f_orig, fname, cstyle=False, label="C03"):
+    """relational postcondition: f(max_dist=m / use_pruning) vs the same f without them"""
+
+    def post(a, kw, result, pre):
+        (s1, s2), kw = split(a, kw)
+        if len(a) > 2:
+            kw["only_ub"] = a[2]
+        m = kw.get("max_dist") or None
+        pr = bool(kw.get("use_pruning"))
+        if (m is None and not pr) or kw.get("only_ub"):
+            return
+        r, c = len(s1), len(s2)
+        if pr and not valid_ub_domain(kw, r, c):
+            ctx.count("c03_skipped_ub_not_valid")
+            if m is None:
+                return
+            pr = False
+        kw0 = {k: v for k, v in kw.items() if k not in ("max_dist", "use_pruning", "only_ub")}
+        if not pr and kw.get("use_pruning"):
+            # pruning outside its valid domain: judge only the max_dist law on a call without pruning
+            return
+        d0 = float(f_orig(s1, s2, **kw0))
+        res = float(result)
+        ctx.count("c03_relational_checks")
+        l1, l2 = tolist(s1), tolist(s2)
+        key = (fname, flat(l1), flat(l2), settings_key(kw))
+        verdict = None
+        if m is not None and near_threshold(d0, m, 1e-6):
+            ctx.count("c03_skipped_near_threshold")
+            return
+        if m is not None and d0 > m:
+            ctx.count("c03_above_threshold")
+            if res != inf:
+                verdict = "finite-above-threshold"
+        else:
+            ctx.count("c03_below_threshold")
+            if not engines_agree(res, d0):
+                verdict = "changed-below-threshold" if res != inf else "lost-below-threshold"
+        ctx.case(key, d0 != 0 and d0 != inf and min(r, c) >= 2)
+        if pr and d0 != inf:
+            ctx.count("c03_pruning_checks")
+        if verdict:
+            ctx.violation(verdict, prop=label, fn=fname, s1=l1, s2=l2, settings=dict(settings_key(kw)),
+                          with_bound=res, without=d0)
+        elif len(ctx.samples) < 3 and d0 not in (0, inf):
+            ctx.sample(dict(fn=fname, s1=l1, s2=l2, settings=dict(settings_key(kw)), with_bound=res, without=d0))
+
+    return post
